@@ -36,7 +36,8 @@ pub fn guarded(f: impl FnOnce()) {
     });
     if catch_unwind(AssertUnwindSafe(f)).is_err() {
         let (loc, msg) = LAST.with(|l| l.borrow_mut().take()).unwrap_or_default();
-        if KNOWN.iter().any(|(l, m)| loc.contains(l) && msg.contains(m)) {
+        // PVFUZZ_NO_ALLOW=1 disables the allow-list (used to confirm that a known input still crashes)
+        if std::env::var_os("PVFUZZ_NO_ALLOW").is_none() && KNOWN.iter().any(|(l, m)| loc.contains(l) && msg.contains(m)) {
             return;
         }
         eprintln!("C09 libFuzzer: NEW panic at {loc}: {msg}");
